@@ -41,6 +41,19 @@ def toPlain : SStr → Str
   | .qm :: r => '?' :: toPlain r
   | .ph n :: r => '%' :: n ++ '%' :: toPlain r
 
+/-- `ReplaceStringTransformation.apply_string_value`, plain-form mode
+(`sigma/processing/transformations/values.py`), after the substitution: every backslash of the
+plain text that does not stand in front of `*` or `?` is doubled (`re.sub(r"\\(?![*?])", …)`) -/
+def reescape : Str → Str
+  | [] => []
+  | c :: r =>
+    if c == '\\' && !(r.head? == some '*' || r.head? == some '?') then '\\' :: '\\' :: reescape r
+    else c :: reescape r
+
+/-- the value a `replace_string` item (plain-form mode) hands back when its expression matches
+nothing: the plain form, re-escaped and parsed again (values without placeholders) -/
+def replaceIdentity (s : SStr) : SStr := parse (reescape (toPlain s))
+
 inductive Err
   | noMulti | noSingle | placeholder (name : Str)
 deriving Repr, DecidableEq
